@@ -109,7 +109,9 @@ def gen_prog(rng, nq, depth, maxlen, p_sub=0.18, reps=(1, 1, 2, 2, 3), **kw):
     for _ in range(n):
         if depth > 0 and rng.random() < p_sub:
             if rng.random() < P_EMPTY_SUB:      # an EMPTY sub-circuit: occupies no channel, lists nothing, may still be referred to
-                prog.append({'t': 'sub', 'reps': rng.choice(reps), 'body': []})
+                # ... directly empty, or holding nothing but (possibly repeated) empty sub-circuits
+                body = [{'t': 'sub', 'reps': rng.choice(reps), 'body': []} for _ in range(rng.randint(1, 2))] if rng.random() < 0.4 else []
+                prog.append({'t': 'sub', 'reps': rng.choice(reps), 'body': body})
                 continue
             prog.append({'t': 'sub', 'reps': rng.choice(reps), 'body': gen_prog(rng, nq, depth - 1, max(1, maxlen // 2), p_sub, reps, **kw)})
         else:
@@ -194,7 +196,8 @@ def gen_structured(rng):
             prog += [_g(rng.choice(['Rx180', 'Ry90', 'Identity']), q) for _ in range(n)]
         rng.shuffle(prog)
         ph = len(prog)
-        prog.append({'t': 'sub', 'reps': rng.choice([1, 1, 2]), 'body': []})
+        prog.append({'t': 'sub', 'reps': rng.choice([1, 1, 2]),
+                     'body': [{'t': 'sub', 'reps': rng.choice([1, 2]), 'body': []}] if rng.random() < 0.4 else []})
         prog.append(_g('Identity', rng.randrange(len(lens)), rel=[rng.choice('SFE'), ph]))
         if rng.random() < 0.5:
             prog.append(_w(rng.randrange(len(lens)), 1.0, rel=[rng.choice('SF'), ph]))
@@ -349,6 +352,56 @@ def c_case(case, out):
             f"c_unrolled_twice := {c_obs(out.get('unrolled_twice'))}; c_unrolled_dur_first := {c_obs(out.get('unrolled_dur_first'))}; "
             f"c_stable := {cbool((out.get('plain') or {}).get('again', True))}; c_reps_after := {reps_after}; "
             f"c_top_ref := {clist([cz(x) for x in out.get('top_ref', [])])} |}}")
+
+
+# ------------------------------------------------------------------------------------------------ observation after a change of settings
+def gen_after_change(rng, n, gen):
+    """Cases whose ONLY observation is made after the duration settings changed (driver: obs 'after_change')."""
+    cases = []
+    # C04 under a history: the unrolled circuit is listed and its durations are read, THEN the duration settings change (global
+    # durations rotated, registry durations permuted; for a third of the cases all registry durations sit near 10^6 and move by
+    # a few units), and the circuit is observed again.  Encoded as a case whose settings are the NEW ones and whose only
+    # observation is that last one: the tie compares it with the model of a fresh circuit under the new settings.
+    for i in range(n):
+        c = gen_structured(rng) if i % 4 == 3 else gen()
+        c['obs'] = ['after_change']
+        e = c['env']
+        ks = sorted(e)
+        c['env2'] = dict(e) if i % 2 else {k: e[ks[(j + 1) % len(ks)]] for j, k in enumerate(ks)}
+        reg = dict(c.get('reg', {}))
+        if i % 3 == 0:
+            reg = {k: 1000000.0 + v for k, v in reg.items()}
+            c['reg'] = reg
+        rk = sorted(reg)
+        c['reg2'] = {k: reg[rk[(j + 1) % len(rk)]] + (0.0 if len(rk) > 1 and reg[rk[(j + 1) % len(rk)]] != reg[k] else 3.0)
+                     for j, k in enumerate(rk)}
+        if i % 5 == 1:
+            c['late_reg'] = True         # registry durations are set for the FIRST time by the change
+        cases.append(c)
+    # fixed: a repeated body that starts with a nested block beside a registry-timed wait; the change flips which of the two ends
+    # last (in both directions), so whatever follows the round must follow the OTHER member afterwards
+    for before, after in ((10.0, 1.0), (1.0, 10.0)):
+        for reps in (2, 3):
+            body = [{'t': 'sub', 'reps': 1, 'body': [_g('Rx180', 0)]},
+                    dict(_w(1, 1.0), dur=['reg', 'k0'])]
+            cases.append({'prog': [{'t': 'sub', 'reps': reps, 'body': body}], 'obs': ['after_change'],
+                          'env': {'READOUT': 2.0, 'MICROWAVE': 4.0, 'FLUX': 1.0, 'RESET': 2.0},
+                          'env2': {'READOUT': 2.0, 'MICROWAVE': 4.0, 'FLUX': 1.0, 'RESET': 2.0},
+                          'reg': {'k0': before, 'k1': 2.0}, 'reg2': {'k0': after, 'k1': 2.0}})
+    # fixed: a registry-timed wait with a follower; the key is set for the first time after times were read
+    cases.append({'prog': [dict(_w(0, 1.0), dur=['reg', 'k0']), _g('Rx180', 0), _g('Rx180', 1)],
+                  'obs': ['after_change'], 'late_reg': True,
+                  'env': {'READOUT': 2.0, 'MICROWAVE': 2.0, 'FLUX': 1.0, 'RESET': 2.0},
+                  'env2': {'READOUT': 2.0, 'MICROWAVE': 2.0, 'FLUX': 1.0, 'RESET': 2.0},
+                  'reg': {'k0': 5.0, 'k1': 2.0}, 'reg2': {'k0': 5.0, 'k1': 2.0}})
+    return cases
+
+
+def after_change_as(c, o, field):
+    """(case, out) to print with c_case: the settings are the NEW ones and the observation made after the change sits in `field`"""
+    if 'error' in o or 'after_change' not in o:
+        return c, {'error': o.get('error', 'no observation')}
+    return dict(c, env=c['env2'], reg=c['reg2']), {'leafinfo': o['leafinfo'], field: o['after_change']}
 
 
 # ------------------------------------------------------------------------------------------------ shrinking
